@@ -38,6 +38,14 @@ Definition is_ring (ls : list label) (r : list entry) : Prop :=
 Definition distinct_owners (ls : list label) : Prop :=
   forall l1 l2 p, In l1 ls -> In l2 ls -> In p (pts l1) -> In p (pts l2) -> l1 = l2.
 
+(* ---- the ring after fixes/C19-ketama-tiebreak.patch: Less compares (point, label) lexicographically,
+   [lle] being the order on labels (Go's string order).  Such a ring is in particular an [is_ring]. ---- *)
+Variable lle : label -> label -> Prop.
+Definition le_entry (a b : entry) : Prop :=
+  fst a < fst b \/ (fst a = fst b /\ lle (snd a) (snd b)).
+Definition is_ring_tb (ls : list label) (r : list entry) : Prop :=
+  Permutation (entries ls) r /\ Sorted le_entry r.
+
 End Ketama.
 
 Section Lookup.
